@@ -22,6 +22,8 @@ THEOREMS = [NS + t for t in (
     'parallel_eq_serial',
     'parallel_eq_serial_stripe_order',
     'narrow_stripe_races',
+    'phases_cover',               # Props/C07Cover: the two passes visit every stripe exactly once, odd counts too, each its own slice
+    'pairs_loop_drops_last',      # a loop over np//2 stripe PAIRS misses the last stripe of an odd partition (seeded change C06-e)
 )] + ['AbacusVerif.Conc.disjoint_footprints_interleave', 'AbacusVerif.Conc.rmw_interleave',
       'AbacusVerif.Conc.lost_update_witness'] + ['AbacusVerif.TscLink.' + t for t in (
           'tsc_parallel_eq_serial',      # C17 partition -> C07 loops -> C06 kernel, every schedule == C06 serial scatter
@@ -32,7 +34,7 @@ THEOREMS = [NS + t for t in (
           'tsc_parallel_wrap_eq_serial',  # wrap=True: _wrap_inplace first, particles up to one box outside, every schedule
           'wrapped_partOK',              # C06's wrap_inplace_spec discharges the per-particle hypothesis of the link theorem
       )]
-LEAN_MODULES = ['AbacusVerif.Props.C07', 'AbacusVerif.Props.C07Link', 'AbacusVerif.Props.C07Wrap']
+LEAN_MODULES = ['AbacusVerif.Props.C07', 'AbacusVerif.Props.C07Link', 'AbacusVerif.Props.C07Wrap', 'AbacusVerif.Props.C07Cover']
 DRIVER = 'drv_c07'
 RULE = ('(a) exhaustive decision table: every (n1d <= 64 [160 thorough], nthread 0..24 [32], npartition in {None, 0, -1} U 1..n1d+1) '
         'through the real tsc_parallel with _tsc_parallel replaced by a recorder, against choosePartition; '
